@@ -191,12 +191,14 @@ def build_many(pairs, jobs=8):
             res[k] = f.result()
     return res
 
-def prune_old(max_age_s=5400):
+def prune_old(max_age_s=8 * 3600):
     """remove build directories of other trees that have not been used for a while (disk space); never the current one"""
     if not os.path.isdir(BUILD_ROOT):
         return
     cur = os.path.basename(build_dir())
     now = time.time()
+    try: os.utime(build_dir(), None)      # mark the current tree's directory as in use
+    except OSError: pass
     for d in os.listdir(BUILD_ROOT):
         p = os.path.join(BUILD_ROOT, d)
         if not os.path.isdir(p) or d == cur:
